@@ -1,7 +1,8 @@
 (* C15 — deciding obligations (statements only). *)
 From Coq Require Import ZArith List Bool.
 From VF Require Import Base.RingOps Base.Mat Base.Tensor Base.Harness Base.K8 Gates.Families Sim.Ref
-  Xform.KakCanon Xform.KakCanonProofs Xform.KakCount Xform.KakCountProofs Xform.KakStruct Xform.KakStructProofs.
+  Xform.KakCanon Xform.KakCanonProofs Xform.KakCount Xform.KakCountProofs Xform.KakStruct Xform.KakStructProofs
+  Xform.KakTab Xform.KakTabProofs.
 Import ListNotations.
 
 (* kak_canonicalize_vector reaches the canonical Weyl chamber for EVERY input (any rational multiple of pi/4:
@@ -174,3 +175,43 @@ Print Assumptions C15_iswap_pow_1_square.
 Theorem C15_iswap_pow_m1_not_iswap_up_to_phase : forall g : K8, mscale K8Ops g (iswap_pow_1 K8Ops) <> iswap_pow_m1 K8Ops.
 Proof. exact iswap_pow_m1_not_iswap_up_to_phase. Qed.
 Print Assumptions C15_iswap_pow_m1_not_iswap_up_to_phase.
+
+(* ---- the tabulation decomposition (Xform/KakTab.v): TwoQubitGateTabulation.compile_two_qubit_gate ---- *)
+(* the returned list (kR, k_1, ..., k_n, kL), multiplied out in the documented order k_N . A . k_{N-1} ... A . k_0, is
+   kL . (A . k_n ... A . k_1 . A) . kR: the reduce the outer locals are solved against, dressed with them — for any number of layers *)
+Theorem C15_tab_product_outer : forall K (O : Ops K), Laws O -> forall (A kR kL : matrix (K:=K)) (inner : list (matrix (K:=K))),
+  is44 A -> is44 kR -> is44 kL -> Forall is44 inner ->
+  tab_product O A (tab_result kR kL inner) = mmul O kL (mmul O (inner_product O A inner) kR).
+Proof. exact @tab_product_outer. Qed.
+Print Assumptions C15_tab_product_outer.
+(* three base gates, two inner layers: k_1 (listed first) acts first *)
+Theorem C15_tab_product_three_bases : forall K (O : Ops K), Laws O -> forall A kR k1 k2 kL : matrix (K:=K),
+  is44 A -> is44 kR -> is44 k1 -> is44 k2 -> is44 kL ->
+  tab_product O A [kR; k1; k2; kL] = mmul O kL (mmul O (mmul O A (mmul O k2 (mmul O A (mmul O k1 A)))) kR).
+Proof. exact @tab_product_three_bases. Qed.
+Print Assumptions C15_tab_product_three_bases.
+(* equal inner layers (the "same single qubit" entries) may be listed in either time order ... *)
+Theorem C15_inner_product_rev_repeat : forall K (O : Ops K) (A k : matrix (K:=K)) n,
+  inner_product O A (rev (repeat k n)) = inner_product O A (repeat k n).
+Proof. exact @inner_product_rev_repeat. Qed.
+Print Assumptions C15_inner_product_rev_repeat.
+(* ... different ones may not: base gate CNOT, layers H (x) I and I (x) S *)
+Example C15_inner_order_matters :
+  let A := cnot_m K8Ops in
+  let ka := kron K8Ops h8 (mid K8Ops 2) in
+  let kb := kron K8Ops (mid K8Ops 2) s8 in
+  meqb k8_eqb (inner_product K8Ops A [ka; kb]) (inner_product K8Ops A [kb; ka]) = false
+  /\ meqb k8_eqb (inner_product K8Ops A [ka; kb]) (mmul K8Ops A (mmul K8Ops kb (mmul K8Ops A (mmul K8Ops ka A)))) = true.
+Proof. exact inner_order_matters. Qed.
+(* the closeness measure: tr(U^dagger (g V)) = g tr(U^dagger V), so |overlap|^2/16 ignores a global phase (|g| = 1), and a unitary
+   overlaps with itself in 4 (fidelity 1) *)
+Theorem C15_overlap_phase : forall K (O : Ops K), Laws O -> forall g (U V : matrix (K:=K)), is44 U -> is44 V ->
+  overlap O U (mscale O g V) = kmul O g (overlap O U V).
+Proof. exact @overlap_phase. Qed.
+Print Assumptions C15_overlap_phase.
+Theorem C15_overlap_self : forall K (O : Ops K), Laws O -> forall U : matrix (K:=K),
+  mmul O (mdagger O U) U = id4 O -> overlap O U U = four O.
+Proof. exact @overlap_self. Qed.
+Print Assumptions C15_overlap_self.
+Example C15_overlap_self_hypothesis_satisfiable : mmul K8Ops (mdagger K8Ops (cnot_m K8Ops)) (cnot_m K8Ops) = id4 K8Ops.
+Proof. vm_compute. reflexivity. Qed.
